@@ -61,6 +61,7 @@ type Config struct {
 	NoPoison       bool // do not poison []byte handed to a Pool
 	NoStalls       bool // do not offer the "stall the default thread" alternative
 	UnlockPoints   bool // releasing a Mutex / RWMutex is followed by a scheduling point: the plain reads and writes a thread does right after leaving a critical section can then interleave with other threads
+	MapRaces       bool // vector clocks + map accesses reported by instrumented code: unsynchronised concurrent map access is reported as the fatal error it can become (see race.go)
 	UnlockedWrites bool // a struct-field write by a thread that holds no lock is a scheduling point (see SharedWrite)
 	Names          bool // resolve the names of library threads from their call site (slow; always on when tracing)
 	LibPrefix      string
@@ -84,6 +85,7 @@ type objState struct {
 	ep  int32
 	ver uint32
 	id  uint64
+	vc  vclock // Config.MapRaces: what happened before the last release into this object
 }
 
 type thread struct {
@@ -100,9 +102,10 @@ type thread struct {
 	done    bool
 	exited  bool
 	gone    chan struct{}
-	demoted int // > 0: stalled (order of demotion); scheduled only when no other thread can run
-	xl      int // exclusive locks (Mutex.Lock, RWMutex.Lock) currently held by this thread
-	rl      int // read locks (RWMutex.RLock) currently held by this thread
+	demoted int    // > 0: stalled (order of demotion); scheduled only when no other thread can run
+	xl      int    // exclusive locks (Mutex.Lock, RWMutex.Lock) currently held by this thread
+	vc      vclock // Config.MapRaces: this thread's vector clock
+	rl      int    // read locks (RWMutex.RLock) currently held by this thread
 }
 
 type sched struct {
@@ -119,6 +122,7 @@ type sched struct {
 	closed   map[uintptr]bool
 	chans    map[uintptr]*objState
 	atoms    map[uintptr]*objState
+	maps     map[uintptr]*mapState
 	objids   map[uintptr]int
 	hb       uint64
 	th       uint64
@@ -239,6 +243,16 @@ func (s *sched) newThread(name string, lib bool, parent *thread) *thread {
 		t.path = mix(parent.path, parent.spawns, 17, 0)
 	} else {
 		t.path = 1
+	}
+	if s.cfg.MapRaces {
+		// go statement: everything the parent has done happens before the new thread starts
+		if parent != nil {
+			t.vc = parent.vc.copy()
+			parent.vc[parent.id]++
+		} else {
+			t.vc = vclock{}
+		}
+		t.vc[t.id] = 1
 	}
 	s.threads = append(s.threads, t)
 	s.live = append(s.live, t)
@@ -435,6 +449,7 @@ func (s *sched) touch(o *objState) *objState {
 		o.ep = epoch
 		o.ver = 0
 		o.id = 0
+		o.vc = nil
 	}
 	return o
 }
@@ -718,7 +733,7 @@ func AtomicPoint(p unsafe.Pointer, what string) {
 	if _, ok := s.objids[a]; !ok {
 		s.objids[a] = len(s.objids) + 1
 	}
-	if !s.cfg.AtomicPoints {
+	if !s.cfg.AtomicPoints && !s.cfg.MapRaces {
 		return
 	}
 	o := s.atoms[a]
@@ -726,7 +741,12 @@ func AtomicPoint(p unsafe.Pointer, what string) {
 		o = &objState{ep: epoch}
 		s.atoms[a] = o
 	}
-	s.point(what, o, nil)
+	if s.cfg.AtomicPoints {
+		s.point(what, o, nil)
+	}
+	// an atomic operation is both an acquire and a release on its address
+	s.acq(o)
+	s.rel(o)
 }
 
 // SelfLib reports whether the running thread was spawned by instrumented (library) code.
